@@ -5,6 +5,7 @@ every responseWriter method, and the run invariant behind the property theorems.
 import CaddyModel.C15.Spec
 import CaddyModel.C15.Caddyfile
 import CaddyModel.C15.Pool
+import CaddyModel.C15.Proxy
 
 set_option linter.unusedSimpArgs false
 set_option linter.unusedVariables false
@@ -1918,6 +1919,157 @@ theorem la_rwClose {ce cc : List Bytes} (cfg : Cfg α) {st : St α} (h : LeftAlo
   unfold rwClose
   rw [h1.closed]
   exact h1
+
+end
+end CaddyModel.C15
+
+/-! ## reverse_proxy as a caller: the lock discipline serialises the calls -/
+namespace CaddyModel.C15
+
+section
+variable {α : Type}
+
+/-- what the lock holder may be doing, and what the trace then looks like -/
+def heldOk (ph : Phase) (t : Bool) (tr : List (CallEv α)) : Prop :=
+  (ph = .locked ∧ okRev tr none = true) ∨ (ph = .inCall ∧ okRev tr (some t) = true) ∨
+    (ph = .after ∧ okRev tr none = true)
+
+/-- every thread keeps the discipline; who does not hold the lock is between calls; the holder is the only one
+    that can be inside a call, and the trace so far has no overlap -/
+structure LockInv (s : Sys α) : Prop where
+  guarded : ∀ u, (s.callers u).guarded = true
+  others : ∀ u, s.lock ≠ some u → (s.callers u).phase = .idle
+  held : match s.lock with
+    | none => okRev s.trace none = true
+    | some t => heldOk (s.callers t).phase t s.trace
+
+theorem setCaller_self (s : Sys α) (t : Bool) (c : Caller α) : s.setCaller t c t = c := by
+  simp [Sys.setCaller]
+
+theorem setCaller_other (s : Sys α) {t u : Bool} (c : Caller α) (h : u ≠ t) : s.setCaller t c u = s.callers u := by
+  simp [Sys.setCaller, h]
+
+theorem lockInv_step (s : Sys α) (t : Bool) (h : LockInv s) : LockInv (s.step t) := by
+  have hg := h.guarded t
+  -- the phase of a thread that is not idle says it holds the lock
+  have holder : (s.callers t).phase ≠ .idle → s.lock = some t := by
+    intro hp
+    cases hl : s.lock with
+    | none => exact absurd (h.others t (by rw [hl]; simp)) hp
+    | some u =>
+      by_cases hu : u = t
+      · rw [hu]
+      · exact absurd (h.others t (by rw [hl]; simpa using hu)) hp
+  unfold Sys.step
+  split
+  · -- idle → try to take the lock
+    rename_i hph _
+    by_cases hfree : s.lock.isNone = true
+    · rw [if_pos hfree]
+      have hl : s.lock = none := by simpa using hfree
+      have htr : okRev s.trace none = true := by have := h.held; rw [hl] at this; exact this
+      refine ⟨fun u => ?_, fun u hu => ?_, ?_⟩
+      · by_cases e : u = t
+        · subst e; simp [setCaller_self, hg]
+        · simp only []; rw [setCaller_other s _ e]; exact h.guarded u
+      · have e : u ≠ t := fun e => hu (by simp [e])
+        simp only []; rw [setCaller_other s _ e]
+        exact h.others u (by rw [hl]; simp)
+      · simp only [setCaller_self]
+        exact Or.inl ⟨rfl, htr⟩
+    · rw [if_neg hfree]; exact h
+  · -- locked → begin the call (guarded)
+    rename_i c _ hph _
+    have hl := holder (by rw [hph]; decide)
+    have hh := h.held; rw [hl] at hh
+    rw [if_pos hg]
+    refine ⟨fun u => ?_, fun u hu => ?_, ?_⟩
+    · by_cases e : u = t
+      · subst e; simp [setCaller_self, hg]
+      · simp only []; rw [setCaller_other s _ e]; exact h.guarded u
+    · have e : u ≠ t := fun e => hu (by simp [hl, e])
+      simp only []; rw [setCaller_other s _ e]
+      exact h.others u (by simpa [hl] using hu)
+    · simp only [hl, setCaller_self]
+      rcases hh with ⟨_, ho⟩ | ⟨hp, _⟩ | ⟨hp, _⟩
+      · exact Or.inr (Or.inl ⟨rfl, by simp [okRev, ho]⟩)
+      · rw [hph] at hp; cases hp
+      · rw [hph] at hp; cases hp
+  · -- ready: impossible under the discipline
+    rename_i hph _
+    have hl := holder (by rw [hph]; decide)
+    have hh := h.held; rw [hl] at hh
+    rcases hh with ⟨hp, _⟩ | ⟨hp, _⟩ | ⟨hp, _⟩ <;> (rw [hph] at hp; cases hp)
+  · -- inCall → the call returns (guarded: lock still held)
+    rename_i hph _
+    have hl := holder (by rw [hph]; decide)
+    have hh := h.held; rw [hl] at hh
+    rw [if_pos hg]
+    refine ⟨fun u => ?_, fun u hu => ?_, ?_⟩
+    · by_cases e : u = t
+      · subst e; simp [setCaller_self, hg]
+      · simp only []; rw [setCaller_other s _ e]; exact h.guarded u
+    · have e : u ≠ t := fun e => hu (by simp [hl, e])
+      simp only []; rw [setCaller_other s _ e]
+      exact h.others u (by simpa [hl] using hu)
+    · simp only [hl, setCaller_self]
+      rcases hh with ⟨hp, _⟩ | ⟨_, ho⟩ | ⟨hp, _⟩
+      · rw [hph] at hp; cases hp
+      · exact Or.inr (Or.inr ⟨rfl, by simp [okRev, ho]⟩)
+      · rw [hph] at hp; cases hp
+  · -- after → Unlock
+    rename_i hph _
+    have hl := holder (by rw [hph]; decide)
+    have hh := h.held; rw [hl] at hh
+    refine ⟨fun u => ?_, fun u _ => ?_, ?_⟩
+    · by_cases e : u = t
+      · subst e; simp [setCaller_self, hg]
+      · simp only []; rw [setCaller_other s _ e]; exact h.guarded u
+    · by_cases e : u = t
+      · subst e; simp [setCaller_self]
+      · simp only []; rw [setCaller_other s _ e]
+        exact h.others u (by rw [hl]; simpa using (fun e' => e e'.symm))
+    · simp only []
+      rcases hh with ⟨hp, _⟩ | ⟨hp, _⟩ | ⟨_, ho⟩
+      · rw [hph] at hp; cases hp
+      · rw [hph] at hp; cases hp
+      · exact ho
+  · exact h
+
+theorem lockInv_exec : ∀ (sched : List Bool) (s : Sys α), LockInv s → LockInv (s.exec sched)
+  | [], _, h => h
+  | t :: ts, s, h => lockInv_exec ts _ (lockInv_step s t h)
+
+theorem lockInv_start (ws fs : List (Op α)) : LockInv (Sys.start true true ws fs) :=
+  ⟨fun u => by cases u <;> rfl, fun u _ => by cases u <;> rfl, rfl⟩
+
+theorem noOverlap_of_lockInv {s : Sys α} (h : LockInv s) : noOverlap s.trace = true := by
+  have hh := h.held
+  unfold noOverlap
+  cases hl : s.lock with
+  | none => rw [hl] at hh; simp [hh]
+  | some t =>
+    rw [hl] at hh
+    rcases hh with ⟨_, ho⟩ | ⟨_, ho⟩ | ⟨_, ho⟩
+    · simp [ho]
+    · cases t <;> simp [ho]
+    · simp [ho]
+
+/-- an overlap-free trace with no call in progress IS a sequential script -/
+theorem script_of_okRev : ∀ (tr : List (CallEv α)), okRev tr none = true →
+    ∃ script : List (Bool × Op α), tr = scriptTrace script ∧ callsOf tr = (script.reverse).map (·.2)
+  | [], _ => ⟨[], rfl, rfl⟩
+  | [.beg _ _], h => by simp [okRev] at h
+  | [.fin _], h => by simp [okRev] at h
+  | .beg _ _ :: _ :: _, h => by simp [okRev] at h
+  | .fin _ :: .fin _ :: _, h => by simp [okRev] at h
+  | .fin t :: .beg u c :: rest, h => by
+    simp only [okRev, Option.isNone_none, Bool.true_and, Bool.and_eq_true, beq_iff_eq, Option.some.injEq] at h
+    obtain ⟨htu, hr⟩ := h
+    obtain ⟨script, e1, e2⟩ := script_of_okRev rest hr
+    refine ⟨(t, c) :: script, ?_, ?_⟩
+    · simp [scriptTrace, e1, htu]
+    · simp [callsOf, e2]
 
 end
 end CaddyModel.C15
